@@ -75,7 +75,18 @@ def op_tensordot(rng, mode_):
 
 
 def gen_tt_b(rng, rows, cols, ranks, cplx, mode_):
-    return TT([gen_entries(rng, (ranks[i], rows[i], cols[i], ranks[i + 1]), cplx, mode_) for i in range(len(rows))])
+    """cores of one dtype, or (40 % of the complex trains of order > 1) real and complex cores mixed"""
+    n = len(rows)
+    flags = [bool(cplx)] * n
+    if cplx and n > 1 and rng.random() < 0.4:
+        flags = [rng.random() < 0.5 for _ in range(n)]
+        if not any(flags):
+            flags[rng.randrange(n)] = True
+    return TT([gen_entries(rng, (ranks[i], rows[i], cols[i], ranks[i + 1]), flags[i], mode_) for i in range(n)])
+
+
+def gen_tt(rng, rows, cols, ranks, cplx, mode_):      # shadows c01.gen_tt: C02 also exercises trains of mixed dtype
+    return gen_tt_b(rng, rows, cols, ranks, cplx, mode_)
 
 
 def op_rank_tensordot(rng, mode_):
